@@ -39,7 +39,7 @@ TMAX = B(2, 3)  # start / hold bounds
 XMAX = B(4, 6)  # cancellation instant bound
 
 
-def _scenario(keys, starts, holds, cancels, xs) -> bool:
+def _scenario(keys, starts, holds, cancels, xs, yields=None) -> bool:
     n = len(keys)
     loop = SymLoop()
     ok = [True]
@@ -52,6 +52,8 @@ def _scenario(keys, starts, holds, cancels, xs) -> bool:
 
         async def user(i: int, key: str, s, h):
             await asyncio.sleep(s)
+            for _ in range(yields[i] if yields else 0):
+                await asyncio.sleep(0)    # arrive a few loop iterations later WITHIN the same instant (e.g. right after a release there)
             free = want.get(key, 0) == 0
             t_req = loop.time()
             want[key] = want.get(key, 0) + 1
@@ -131,6 +133,23 @@ def ob_three_users_q(k2: bool, s0: int, s1: int, s2: int, h0: int, h1: int, h2: 
     post: _
     """
     return _scenario([False, False, k2], [s0, s1, s2], [h0, h1, h2], [False, c1, False], [0, x1, 0])
+
+
+@obligation(quick=400, thorough=800, partitions_quick=[f"s2 == {a} and y2 == {y} and s3 {c}" for a in range(4) for y in range(3) for c in ("<= 1", ">= 2")],
+            partitions_thorough=[f"s2 == {a} and s3 == {b} and y2 == {y}" for a in range(4) for b in range(4) for y in range(3)],
+            what="4 users: a holder, a queued waiter and a late-comer on key a (the late-comer may arrive in the very loop iteration in which the "
+                 "holder releases and hands the lock to the waiter), and a user of the FREE key b arriving around that moment: exclusion on a, "
+                 "the user of b enters at once, everybody enters, no residue, the bookkeeping lock is never left held",
+            bounds={"users": "3 on key a + 1 on key b", "start": "0 / 0..2 / 0..3 / 0..3 (+ 0..2 / 0..3 extra loop iterations within the instant)", "hold": "1..2, 0..2, 0..2, 0..1"})
+def ob_four_users_handover(h0: int, s1: int, s2: int, s3: int, h1: int, h2: int, h3: int, y2: int = 0, y3: int = 0) -> bool:
+    """
+    pre: 1 <= h0 <= 2 and 0 <= s1 <= 2 and 0 <= s2 <= 3 and 0 <= s3 <= 3 and 0 <= h1 <= 2 and 0 <= h2 <= 2 and 0 <= h3 <= 1
+    pre: 0 <= y2 <= 2 and 0 <= y3 <= 3
+    post: _
+    """
+    y2 = 0 if y2 == 0 else (1 if y2 == 1 else 2)
+    y3 = 0 if y3 == 0 else (1 if y3 == 1 else (2 if y3 == 2 else 3))
+    return _scenario([False, False, False, True], [0, s1, s2, s3], [h0, h1, h2, h3], [False] * 4, [0] * 4, yields=[0, 0, y2, y3])
 
 
 @obligation(quick=None, thorough=500, partitions_thorough=_P3T,
